@@ -72,6 +72,8 @@ type ACSSpec struct {
 	Location  string `json:"location"`
 	Index     string `json:"index"`
 	IsDefault string `json:"is_default"` // Absent = attribute not written
+	// ResponseLocation, when set, is written as the optional attribute of that name (it has no meaning for consumer services)
+	ResponseLocation string `json:"response_location,omitempty"`
 }
 
 type SLOSpec struct {
@@ -196,6 +198,9 @@ func (sp SPSpec) MetadataXML() []byte {
 		e.SetAttr("Binding", a.Binding).SetAttr("Location", a.Location).SetAttr("index", a.Index)
 		if a.IsDefault != Absent {
 			e.SetAttr("isDefault", a.IsDefault)
+		}
+		if a.ResponseLocation != "" {
+			e.SetAttr("ResponseLocation", a.ResponseLocation)
 		}
 		sso.AddText("\n    ").Add(e)
 	}
